@@ -428,8 +428,7 @@ func (c *Ctx) sliceOfFresh(fn *ssa.Function, s ssa.Value, fresh map[*ssa.Functio
 
 // ownedPathExceptions: reviewed call sites, keyed by "caller|callee".
 var ownedPathExceptions = map[string]string{
-	"(*pkg/server.BgpServer).adjRibInForListPath|Update":  "scratch Adj-RIB built for a listing request: it starts empty and receives each (destination, path-id) once, so AdjRib.Update never takes the replaced-entry branch that copies a timestamp onto the incoming path",
-	"(*pkg/server.BgpServer).adjRibOutForListPath|Update": "scratch Adj-RIB built for a listing request: it starts empty and receives each (destination, path-id) once, so AdjRib.Update never takes the replaced-entry branch that copies a timestamp onto the incoming path",
+	"(*pkg/server.BgpServer).adjRibInForListPath|Update": "scratch Adj-RIB built for a listing request from the peer's own Adj-RIB-In: the second Update does take the replaced-entry branch, but the entry it replaces is the very path it was built from (or the policy-modified private clone of it), so the timestamp copied onto the incoming path is the one it already has — audited with the real code after the sibling exception for the Adj-RIB-Out variant was found wrong (F32)",
 }
 
 // passThroughArg: every callee returns (in result ri) one of its own *Path parameters, nil, or a
